@@ -1429,7 +1429,8 @@ def driven_sources(ctx, binp, names, count, cell, extra):
     for k, name in enumerate(names):
         dr = DRIVES[name]
         cnt = count[name] if isinstance(count, dict) else count
-        chunks = max(1, -(-cnt // 60))
+        # (the coverage-guided driver balances its targets within one process: keep its histories together)
+        chunks = max(1, -(-cnt // (240 if dr.get("extra", {}).get("grid", 0) >= 50 else 60)))
         for ch in range(chunks):
             cfg = dict(CELLS[cell], comps=dr["comps"], probes=2, seed=ctx.seed * 31 + k + 977 * ch, reuse=True, maxent=dr["maxent"])
             cfg.update(dr.get("extra", {}))
@@ -1553,6 +1554,16 @@ def check_c14(ctx):
     cover = {}
     product_check(ctx, "C14", variants, sources, "c14", cover=cover)
     missing = [a for a in REQUIRED_API if cover.get(a, 0) == 0]
+    for attempt in (1, 2):
+        if not missing:
+            break
+        # top up: more coverage-guided histories (another driver seed) until every generated variant was called
+        extra = driven_sources(ctx, b, ["arity"], dict(arity=160), "typed11", dict(typedobs=True, seed=ctx.seed * 31 + 5000 * attempt))
+        for s_ in extra:
+            for k in ("path", "caps", "relst", "perm", "fill", "mapt"):
+                s_[-1].pop(k, None)
+        product_check(ctx, "C14", variants, extra, "c14-topup%d" % attempt, cover=cover)
+        missing = [a for a in REQUIRED_API if cover.get(a, 0) == 0]
     ctx.stats["api_cover"] = cover
     if missing:
         raise Inconclusive("generated API variants never exercised: %s" % ", ".join(missing))
